@@ -323,6 +323,20 @@ func c20Delay(c *Check, P string) {
 			}
 		}
 		c.Report(okArg, P+".O2", "DELAY-EVERY-MESSAGE", pub, ac.Pos(), "stamp call", "every message of the batch is stamped (full range loop)")
+		// no path to the inner Publish goes around the stamping loop
+		for _, ip := range inner {
+			okLoop := false
+			for _, a := range ac.Common().Args {
+				if u, ok := firstOrigin(a).(*ssa.UnOp); ok {
+					if ia, ok := u.X.(*ssa.IndexAddr); ok {
+						if hb := loopHeaderOf(ia.Index); hb != nil && Dominates(pub, firstInstr(hb), ip) {
+							okLoop = true
+						}
+					}
+				}
+			}
+			c.Report(okLoop, P+".O2", "DELAY-NO-BYPASS", pub, ip.Pos(), "inner Publish", "every path to the inner Publish runs the stamping loop (no configuration-dependent shortcut: the context's delay must be stamped even when no default delay is configured)")
+		}
 		for _, ip := range inner {
 			c.Report(!ReachAfter(ip, nil)[ac], P+".O2", "DELAY-STAMP-BEFORE-PUBLISH", pub, ac.Pos(), "stamp call", "stamping precedes the inner Publish")
 		}
@@ -417,6 +431,10 @@ func c20Delay(c *Check, P string) {
 		okA := Wraps(g.Common().Args[0], isMsg) && Wraps(g.Common().Args[0], func(v ssa.Value) bool { p, ok := v.(*ssa.Parameter); return ok && p.Type().String() == "string" })
 		c.Report(okA, P+".O2", "DELAY-GENERATOR-ARGS", A, g.Pos(), "generator call", "the generator receives the topic and the message")
 	}
+	for _, e := range allowTrue {
+		t := e.From.Instrs[len(e.From.Instrs)-1]
+		c.Report(GuardedBy(A, t, genAbsent) && GuardedBy(A, t, ctxAbsent) && GuardedBy(A, t, metaAbsent), P+".O2", "DELAY-ALLOW-LAST", A, t.Pos(), "AllowNoDelay test", "AllowNoDelay is consulted only when nothing provides a delay: no metadata, no context delay and no default generator configured (a configured generator always applies)")
+	}
 	for _, e := range genFail {
 		re := ReachEdge(e, nil)
 		ok := !reachesAny(re, stamps)
@@ -484,7 +502,55 @@ func c20Delay(c *Check, P string) {
 	}
 }
 
+// c20MetricsRegister: a builder used more than once (several Pub/Subs, a Pub/Sub
+// decorated twice) registers the same metric again; the collector handed to the
+// decorator must then be the one the registry already has, or its observations
+// never reach the registry.
+func c20MetricsRegister(c *Check, P string) {
+	n := 0
+	for _, fn := range c.P.SrcFuncs(metricsRel) {
+		var regs []ssa.CallInstruction
+		for _, cl := range CallsIn(fn) {
+			if cl.Common().IsInvoke() && cl.Common().Method.Name() == "Register" && len(cl.Common().Args) == 1 {
+				regs = append(regs, cl)
+			}
+		}
+		if len(regs) == 0 || fn.Signature.Results().Len() != 2 {
+			continue
+		}
+		n++
+		regOK, _ := NilEdges(fn, ResultOfAny(regs, 0))
+		c.Floor(P+".O3", "test `Register error == nil` in "+FnName(fn), len(regOK), 1)
+		isNew := func(v ssa.Value) bool {
+			for _, rg := range regs {
+				if sameValue(unwrapIface(v), unwrapIface(rg.Common().Args[0])) || AllOrigins(v, func(o ssa.Value) bool { return AnyOrigin(rg.Common().Args[0], func(a ssa.Value) bool { return a == o }) }) {
+					return true
+				}
+			}
+			return false
+		}
+		nExisting := 0
+		for i, r := range Returns(fn) {
+			v := r.Results[0]
+			if IsNilConst(v) {
+				continue
+			}
+			k := fmt.Sprintf("register return#%d", i)
+			if f := LoadedField(firstOrigin(v)); f != nil && f.Name() == "ExistingCollector" {
+				nExisting++
+				continue
+			}
+			if isNew(v) {
+				c.Report(GuardedBy(fn, r, regOK), P+".O3", "REGISTER-NEW-ONLY-IF-REGISTERED", fn, r.Pos(), k, "the collector just built is handed out only when the registry accepted it; when the metric is already registered the existing collector is used (observations of a second decoration reach the registry)")
+			}
+		}
+		c.Report(nExisting >= 1, P+".O3", "REGISTER-RETURNS-EXISTING", fn, fn.Pos(), "register", "on AlreadyRegisteredError the registry's existing collector is returned")
+	}
+	c.Floor(P+".O3", "metrics builder function calling Registerer.Register", n, 1)
+}
+
 func c20Metrics(c *Check, P string) {
+	c20MetricsRegister(c, P)
 	// context marks
 	type mark struct{ set, get string }
 	keys := map[string]string{}
@@ -888,4 +954,20 @@ func c20DelayMessage(c *Check, id string) {
 	}
 	c.Report(got[forKey] && got[untilKey] && n == 2, id, "DELAY-MESSAGE-BOTH-KEYS", msgFn, msgFn.Pos(), "delay.Message",
 		"delay.Message writes delayed-until (the time field, formatted) and delayed-for (the duration field's String(), unrounded) straight from the one Delay value it is given")
+}
+
+// loopHeaderOf returns the block holding the induction phi that index derives from.
+func loopHeaderOf(index ssa.Value) *ssa.BasicBlock {
+	switch x := index.(type) {
+	case *ssa.Phi:
+		return x.Block()
+	case *ssa.BinOp:
+		if b := loopHeaderOf(x.X); b != nil {
+			return b
+		}
+		return loopHeaderOf(x.Y)
+	case *ssa.Convert:
+		return loopHeaderOf(x.X)
+	}
+	return nil
 }
